@@ -13,7 +13,7 @@ from ..runner import new_result, viol, bump, case_seed
 
 PID = 'C15'
 LEVEL = 'exploration'
-MODELS = ['sir', 'sis', 'threshold', 'watts', 'kofn', 'dist2', 'global', 'sirs_mixed']
+MODELS = ['sir', 'sis', 'threshold', 'watts', 'kofn', 'dist2', 'global', 'sirs_mixed', 'lazy']
 RULE = ('models: SIR / SIS through this API, fixed-threshold and Watts fractional-threshold contagion, k-of-n, distance-2 influence, global-field '
         'rates (influence set = all nodes), SIRS with heterogeneous non-dyadic rates; graphs n<=12 (e2) and every atlas graph with <=4 nodes (e3, quick; '
         '<=5 thorough); influence sets computed conservatively so the premise of the statement holds.  Non-trivial = >=1 event; distinct = (kind, model, '
@@ -22,7 +22,7 @@ ASSUMPTIONS = ['the harness influence-set functions cover every node whose rate 
 BUDGET = {'quick': 160, 'thorough': 1500}
 CHUNK = {'quick': 10, 'thorough': 40}
 CASE_TIMEOUT = 300
-REQUIRED = ['steps_law_checked', 'clock_draws_checked', 'selections_checked', 'thresholds_checked', 'chooser_calls_checked', 'terminations_checked', 'one_shot_influence_iterables', 'falsy_status_label_runs',
+REQUIRED = ['null_events_seen', 'steps_law_checked', 'clock_draws_checked', 'selections_checked', 'thresholds_checked', 'chooser_calls_checked', 'terminations_checked', 'one_shot_influence_iterables', 'falsy_status_label_runs',
             'counts_follow_statuses', 'e3_states_expanded', 'rate_zero_after_event_seen']
 
 
@@ -84,6 +84,19 @@ def model(name, params):
                 return 0.3 + h
             return a * 1.1 * sum(1 for v in G.neighbors(n) if s[v] == 'I')
         return rate, (lambda G, n, s, p=None: {'S': 'I', 'I': 'R', 'R': 'S'}[s[n]]), (lambda G, n, s, p=None: list(G.neighbors(n))), ['S', 'I', 'R']
+    if name == 'lazy':
+        # the chooser may answer with the node's current status (a user model with 'failed attempts'): nothing changes, the clock still runs
+        def rate(G, n, s, p=None):
+            if s[n] == 'I':
+                return b
+            return a * sum(1 for v in G.neighbors(n) if s[v] == 'I')
+
+        def choice(G, n, s, p=None):
+            k = sum(1 for v in G.neighbors(n) if s[v] == 'I')
+            if s[n] == 'I':
+                return 'S' if k % 2 == 0 else 'I'
+            return 'I' if k != 2 else 'S'
+        return rate, choice, (lambda G, n, s, p=None: list(G.neighbors(n))), ['S', 'I']
     raise ValueError(name)
 
 
@@ -287,6 +300,8 @@ def _check_output(G, nodes, IC, sts, out, events, full, tmin, res, tag, rate_pla
     rows = [(tmin,) + tuple(sum(1 for u in nodes if status[u] == s) for s in sts)]
     for (t, v, a, b, _) in events:
         status[v] = b
+        if a == b:
+            bump(res, 'null_events_seen')        # chooser answered with the current status
         rows.append((t,) + tuple(sum(1 for u in nodes if status[u] == s) for s in sts))
         if rate_plain(G, v, status) == 0:
             bump(res, 'rate_zero_after_event_seen')
